@@ -192,8 +192,9 @@ def run(ctx):
 
     # ---- end to end
     cases, emeta = [], []
+    # "cname": a custom-domain bucket whose host name merely ends with the text of a base domain (no label boundary): the whole host is the bucket
     cfgs = [(None, "path"), (dict(single="s3.example.com"), "path"), (dict(single="s3.example.com"), "vh"),
-            (dict(multi=["s3.example.com", "example.org"]), "vh")]
+            (dict(multi=["s3.example.com", "example.org"]), "vh"), (dict(single="s3.example.com"), "cname"), (dict(multi=["example.org", "s3.example.com"]), "cname")]
     for o in ops:
         vs = list(views_of(o, rq, rh))
         if ctx.quick:
@@ -215,13 +216,17 @@ def run(ctx):
                 q, h = build_view(o, extra, types)
             cfg, style = cfgs[(vi + len(o["name"])) % len(cfgs)] if ctx.quick else (None, None)
             # object keys: mostly short; every fourth view a key at or just below the 1024-byte limit (valid in both addressing styles)
-            okey = LONG_KEYS[vi % len(LONG_KEYS)] if (vi + len(o["name"])) % 4 == 0 else "dir/key.txt"
+            # long keys; keys whose first segment is the bucket's own name (an object of that name, and the "directory" of that name)
+            okey = (LONG_KEYS[vi % len(LONG_KEYS)] if (vi + len(o["name"])) % 4 == 0 else
+                    ["my-bucket/key.txt", "my-bucket/"][vi % 2] if (vi + len(o["name"])) % 4 == 1 else "dir/key.txt")
             for (cfg, style) in ([(cfg, style)] if ctx.quick else cfgs):
                 k = kind_of(o)
                 if k is None:
                     path, host = o["uri"].split("?")[0], "s3.example.com"
                 elif k == "root":
                     path, host = "/", "s3.example.com"
+                elif style == "cname":
+                    path, host = ("/" if k == "bucket" else "/" + okey), "files3.example.com"
                 elif style == "vh":
                     path, host = ("/" if k == "bucket" else "/" + okey), "my-bucket.s3.example.com"
                 else:
@@ -267,6 +272,37 @@ def run(ctx):
                                    status=resp.get("status"), code=code))
             else:
                 unobserved[o["name"]] = code
+    # the operations that take their body as a stream, sent the way an SDK that signs per chunk sends them (aws-chunked, SigV4 streaming
+    # payload): routed and delivered to the same backend method, once, in both addressing styles, whole and framed
+    from checks import c05 as C5
+    from checks import c08 as C8
+    from checks import sigref as S
+    scases, smeta = [], []
+    for opname, q in (("PutObject", []), ("UploadPart", [("partNumber", "3"), ("uploadId", "abc")])):
+        for style, hostcfg in (("path", None), ("vh", dict(single="s3.example.com")), ("path-with-domain", dict(single="s3.example.com"))):
+            host = "my-bucket.s3.example.com" if style == "vh" else "s3.example.com"
+            path = "/streamed/obj.bin" if style == "vh" else "/my-bucket/streamed/obj.bin"
+            for size, fr in ((66560, None), (66560, 4096), (5, 3), (0, None)):
+                body_ = bytes((i * 7 + 3) % 256 for i in range(size))
+                srq = C5.sign(dict(method="PUT", path=path, query=q, headers=[("host", host), ("x-amz-date", C5.ISO)], body=body_, mode="streaming", kind="put"))
+                wb_ = srq["wire_body"]
+                c_ = C8.e2e_case(srq, [wb_] if fr is None else [wb_[i:i + fr] for i in range(0, len(wb_), fr)])
+                c_["config"] = dict(host=hostcfg, auth={S.AK: S.SK}, access="allow", route="none")
+                if q:
+                    c_["request"]["uri"] = C5.hexs(path + "?" + S.query_string(q))
+                scases.append(c_); smeta.append((opname, style, size, fr))
+    for (opname, style, size, fr), r in zip(smeta, vlib.run_impl("svc", scases)):
+        ctx.cov["evaluations"] += 1
+        be = [e for e in r.get("events", []) if e["ev"] == "backend"]
+        show = dict(op="e2e-chunk-signed", operation=opname, style=style, size=size, frame=fr)
+        ctx.count("e2e.chunk_signed." + opname)
+        if "panic" in r or "http_error" in r.get("response", {}) or [e["op"] for e in be] != [snake(opname)]:
+            body = bytes.fromhex(r.get("response", {}).get("body", "") or "").decode("utf8", "replace")
+            ctx.violation(dict(stage="e2e", kind="a chunk-signed upload was not delivered to its operation exactly once", case=show,
+                               backend=[e["op"] for e in be], status=r.get("response", {}).get("status"), answer=body[:200]))
+        else:
+            ctx.cov["traces_validated_against_impl"] += 1
+            ctx.nontrivial(("chunk-signed", opname, style, size, fr))
     ctx.count("e2e.operations_observed_at_backend", len(observed))
     ctx.count("e2e.operations_stopped_in_deserializer", len(set(unobserved) - observed))
     ctx.cov["e2e_unobserved"] = {k: v for k, v in unobserved.items() if k not in observed}
